@@ -84,6 +84,9 @@ fn exec_case(p: &mut proxy::Proxy, spec: &CaseSpec) -> CaseOut {
     p.reset();
     let (d, _) = p.exec(&format!("e2e derive {}", spec.sp.fmt(false)));
     if d.starts_with("ERR") || d == "bad-op" || d == "TIMEOUT" {
+        if std::env::var("E2E_DEBUG").is_ok() {
+            eprintln!("SKIP {} :: {}", d, spec.sp.fmt(false));
+        }
         out.counts.push(format!("{}:skipped-{}", spec.sp.prop, d.split(' ').take(2).collect::<Vec<_>>().join("-")));
         return out;
     }
